@@ -188,3 +188,33 @@ Proof.
   rewrite Z.div_mul by lia. rewrite Z.mod_mul by lia.
   destruct (2 * 0 <? d) eqn:E; [reflexivity|]. apply Z.ltb_ge in E. lia.
 Qed.
+
+(* ---------------- the comparison numpy really makes (finding F5) ---------------- *)
+Lemma first_fit_map_ext lo hi (f : Z * Z -> Z * Z) cs k0 :
+  (forall c, In c cs -> fits lo hi (f c) = fits lo hi c) ->
+  first_fit lo hi (map f cs) k0 = first_fit lo hi cs k0.
+Proof.
+  revert k0. induction cs as [|c t IH]; intros k0 H; [reflexivity|]. cbn [map first_fit].
+  rewrite (H c (or_introl eq_refl)). destruct (fits lo hi c); [reflexivity|].
+  apply IH. intros c' Hc'. apply H. right. exact Hc'.
+Qed.
+
+(* away from the four float boundaries the code's choice is the exact one ... *)
+Lemma choose_f_agrees mant lo hi :
+  (mant = 0 \/ forall c, In c candidates -> 2 ^ mant <= snd c -> round_half_even hi <> snd c + 1) ->
+  choose_int_dtype_f mant lo hi = choose_int_dtype lo hi.
+Proof.
+  intros H. unfold choose_int_dtype_f, choose_int_dtype, fcandidates. apply first_fit_map_ext.
+  intros c Hc. unfold fits, fmax. cbn [fst snd]. f_equal.
+  destruct H as [-> | H]; [reflexivity|].
+  destruct (mant =? 0); [reflexivity|]. cbn [orb].
+  destruct (Z.ltb_spec (snd c) (2 ^ mant)) as [Hlt | Hge]; [reflexivity|].
+  specialize (H c Hc Hge).
+  destruct (Z.leb_spec (round_half_even hi) (snd c + 1)), (Z.leb_spec (round_half_even hi) (snd c)); try reflexivity; lia.
+Qed.
+
+(* ... and at a boundary it is not: an upper bound of 2^32 held in float32 gets uint32 *)
+Lemma choose_f_refuted :
+  exists mant lo hi k, choose_int_dtype_f mant lo hi = Some k /\
+     ~ (round_half_even hi <= snd (range_of k)).
+Proof. exists 24, (0, 1), (4294967296, 1), 4%nat. split; [vm_compute; reflexivity | vm_compute; intros H; apply H; reflexivity]. Qed.
